@@ -66,6 +66,140 @@ def canonicalise_roles(dispa):
     return roles
 
 
+def render_rows(dispa, d, n):
+    """Rows dispa renders recursively for an array of `d` >= 2 dimensions whose first axis has `n` entries: the function body is specialised
+    to that case (ndim / len(shape) := d, shape[0] / len(matrix) := n), constant tests folded, constant-trip loops unrolled, and the recursive
+    calls `dispa(matrix[k, ...], ...)` are read off every remaining path (title / formatting tests stay open).
+    -> (list of per-path row sequences, problems)"""
+    import copy
+    from ..engine import peval
+    from ..engine.paths import paths_of
+    mat = dispa.params[0]
+    shape_vars, dims_vars = set(), set()
+    for a in walk_own(dispa.node):
+        if isinstance(a, ast.Assign) and len(a.targets) == 1 and isinstance(a.targets[0], ast.Name):
+            t = norm_text(a.value)
+            if t in ('%s.shape' % mat, 'np.shape(%s)' % mat, 'numpy.shape(%s)' % mat, 'np.asarray(%s).shape' % mat):
+                shape_vars.add(a.targets[0].id)
+    for a in walk_own(dispa.node):
+        if isinstance(a, ast.Assign) and len(a.targets) == 1 and isinstance(a.targets[0], ast.Name):
+            t = norm_text(a.value)
+            if t in ('%s.ndim' % mat, 'np.ndim(%s)' % mat) or any(t == 'len(%s)' % sv for sv in shape_vars) or t == 'len(%s.shape)' % mat:
+                dims_vars.add(a.targets[0].id)
+    if not dims_vars:
+        return None, ['the number of dimensions is not bound to a name from len(shape) / ndim']
+
+    class Spec(ast.NodeTransformer):
+        def visit_Subscript(s_, nd_):
+            s_.generic_visit(nd_)
+            if isinstance(nd_.ctx, ast.Load) and isinstance(nd_.slice, ast.Constant) and nd_.slice.value == 0 and \
+                    (norm_text(nd_.value) in shape_vars or norm_text(nd_.value) == '%s.shape' % mat):
+                return ast.copy_location(ast.Constant(value=n), nd_)
+            return nd_
+
+        def visit_Name(s_, nd_):
+            if isinstance(nd_.ctx, ast.Load) and nd_.id in dims_vars:
+                return ast.copy_location(ast.Constant(value=d), nd_)
+            return nd_
+
+        def visit_Attribute(s_, nd_):
+            s_.generic_visit(nd_)
+            if norm_text(nd_) == '%s.ndim' % mat:
+                return ast.copy_location(ast.Constant(value=d), nd_)
+            return nd_
+
+        def visit_Call(s_, nd_):
+            s_.generic_visit(nd_)
+            t = norm_text(nd_)
+            if t == 'len(%s)' % mat:
+                return ast.copy_location(ast.Constant(value=n), nd_)
+            if any(t == 'len(%s)' % sv for sv in shape_vars) or t == 'len(%s.shape)' % mat:
+                return ast.copy_location(ast.Constant(value=d), nd_)
+            return nd_
+    fn = copy.deepcopy(dispa.node)
+    fn = Spec().visit(fn)
+    ast.fix_missing_locations(fn)
+
+    class Arith(ast.NodeTransformer):
+        def visit_BinOp(s_, nd_):
+            s_.generic_visit(nd_)
+            if isinstance(nd_.left, ast.Constant) and isinstance(nd_.right, ast.Constant) and all(
+                    isinstance(v_.value, int) and not isinstance(v_.value, bool) for v_ in (nd_.left, nd_.right)):
+                a_, b_ = nd_.left.value, nd_.right.value
+                r_ = {ast.Add: lambda: a_ + b_, ast.Sub: lambda: a_ - b_, ast.Mult: lambda: a_ * b_,
+                      ast.FloorDiv: lambda: a_ // b_ if b_ else None}.get(type(nd_.op), lambda: None)()
+                if r_ is not None:
+                    return ast.copy_location(ast.Constant(value=r_), nd_)
+            return nd_
+    # names bound once to an integer constant (`last = shape[0] - 1`) are read as that constant
+    for _round in range(3):
+        fn = Arith().visit(fn)
+        binds = {}
+        for a in ast.walk(fn):
+            if isinstance(a, ast.Name) and isinstance(a.ctx, ast.Store):
+                binds.setdefault(a.id, []).append(None)
+        for a in ast.walk(fn):
+            if isinstance(a, ast.Assign) and len(a.targets) == 1 and isinstance(a.targets[0], ast.Name) and isinstance(a.value, ast.Constant) \
+                    and isinstance(a.value.value, int) and not isinstance(a.value.value, bool) and len(binds.get(a.targets[0].id, [])) == 1:
+                binds[a.targets[0].id] = [a.value.value]
+        known = {k_: v_[0] for k_, v_ in binds.items() if len(v_) == 1 and v_[0] is not None and k_ not in dispa.params}
+        if not known:
+            break
+
+        class CP(ast.NodeTransformer):
+            def visit_Name(s_, nd_):
+                if isinstance(nd_.ctx, ast.Load) and nd_.id in known:
+                    return ast.copy_location(ast.Constant(value=known[nd_.id]), nd_)
+                return nd_
+        fn = CP().visit(fn)
+    ast.fix_missing_locations(fn)
+    body = [peval._fold(s_) for s_ in peval.flatten_body({}, list(fn.body), 0, None, (), False, False)]
+    body = peval._fold_const_ifs(body)
+    # a second round: bounds named before the loop (`last = n - 1`) become constants once copies are propagated
+    fn.body = body
+    ast.fix_missing_locations(fn)
+    left = [l_ for l_ in ast.walk(fn) if isinstance(l_, (ast.For, ast.While)) and any(
+        isinstance(c_, ast.Call) and isinstance(c_.func, ast.Name) and c_.func.id == dispa.name and c_.args and isinstance(c_.args[0], ast.Subscript)
+        and norm_text(c_.args[0].value) == mat for c_ in ast.walk(l_))]
+    if left:
+        return None, ['a loop around the recursive rendering does not have a constant trip count for ndim = %d, shape[0] = %d (line %d)' % (d, n, left[0].lineno)]
+    seqs, problems = [], []
+    try:
+        ps = paths_of(fn, dispa.params)
+    except RuntimeError as ex:
+        return None, ['paths not summarised: %s' % ex]
+    for pth in ps:
+        if any(e_[0] == 'except' for e_ in pth.events):
+            continue                    # the catch-all fallback (objects without a shape): not the array case
+        other_kind = False
+        for fk_, fv_ in pth.facts.items():
+            t_ = fk_.replace(' ', '')
+            if fv_ and (t_.startswith('hasattr(%s,' % mat) or (t_.startswith('isinstance(%s,' % mat) and 'ndarray' not in t_)):
+                other_kind = True       # dispatch on the KIND of the argument (transform, list, ...): not an array
+        if other_kind:
+            continue
+        seq = []
+        for ev in pth.calls(lambda t: t == dispa.name):
+            a0 = (ev[4][0] if len(ev) > 4 and ev[4] else (ev[2][0] if ev[2] else ''))
+            try:
+                e0 = ast.parse(a0, mode='eval').body
+            except SyntaxError:
+                problems.append('argument %s of a recursive call not parsed' % a0[:40])
+                continue
+            if not (isinstance(e0, ast.Subscript) and norm_text(e0.value) == mat):
+                continue                # not a rendering of a sub-array of the argument
+            ix = e0.slice.elts[0] if isinstance(e0.slice, ast.Tuple) and e0.slice.elts else e0.slice
+            k = ix.value if isinstance(ix, ast.Constant) and isinstance(ix.value, int) else None
+            if isinstance(ix, ast.UnaryOp) and isinstance(ix.op, ast.USub) and isinstance(ix.operand, ast.Constant):
+                k = -ix.operand.value
+            if k is None:
+                problems.append('row index %s of a recursive rendering is not constant for ndim = %d, shape[0] = %d' % (norm_text(ix)[:30], d, n))
+                continue
+            seq.append(k)
+        seqs.append(seq)
+    return seqs, problems
+
+
 def check(model, rep):
     rep.extra['explanation'] = (
         'Path-counting and guard-dominance analysis of disp/dispa: one print of the returned string; exactly one rendering per '
@@ -153,7 +287,38 @@ def check(model, rep):
     tests = [a[0] for a in arms]
     rep.ob('R20.3', dispa, 'dispatch arms ' + ', '.join(tests), tests == ['dims==1', 'dims==2', 'dims==3', 'dims==4', 'else'] and bool(arms[-1][1]),
            'dimension dispatch is not exhaustive over 1, 2, 3, 4, >=5: %s' % tests, line=chain.lineno)
+    # arrays of 2 and more dimensions: which rows are rendered, decided by case analysis on (ndim, shape[0]) of the specialised body - however the
+    # loop over the first axis is written (one loop, first / interior / last row handled apart, ...).  shape[0] = 0..4 separates every
+    # special-casing of the first, second, last-but-one and last row; bounds that are affine in shape[0] then agree for all larger sizes.
+    n_cases = 0
+    for d_ in (2, 3, 4, 5):
+        for n_ in (0, 1, 2, 3, 4):
+            seqs, probs = render_rows(dispa, d_, n_)
+            if seqs is None or probs:
+                rep.ob('R20.2', dispa, 'ndim = %d, shape[0] = %d: rows rendered' % (d_, n_), False, '; '.join(probs)[:200], shape=True)
+                continue
+            n_cases += 1
+            want = list(range(n_))
+            bad = [q_ for q_ in seqs if q_ != want]
+            rep.ob('R20.2', dispa, 'ndim = %d, shape[0] = %d: rows 0..%d rendered once each, in order, on every path' % (d_, n_, n_ - 1), bool(seqs) and not bad,
+                   ('for an array with %d dimension(s) and %d row(s) along the first axis dispa renders the rows %s instead of %s: %s' % (
+                       d_, n_, bad[0], want,
+                       'a row that does not exist is indexed (IndexError - an empty table is a valid array)' if any(k_ >= n_ or k_ < -n_ for k_ in bad[0]) else
+                       'a sub-array is left out, repeated or out of order')) if bad else 'no array path found', line=dispa.node.lineno)
+    rep.floor('R20.2', '(ndim, shape[0]) cases of the recursive rendering decided', n_cases, 20)
     for test, body in arms:
+        if test != 'dims==1':
+            label = test
+            calls = [c for s_ in body for c in ast.walk(s_) if isinstance(c, ast.Call) and isinstance(c.func, ast.Name) and c.func.id == 'dispa'
+                     and c.args and isinstance(c.args[0], ast.Subscript) and src(c.args[0].value) == mat]
+            appended = all(isinstance(dispa.module.parents.get(c), ast.AugAssign) and src(dispa.module.parents.get(c).target) == 'strr' for c in calls)
+            rep.ob('R20.2', dispa, '%s: rendering appended to the result' % label, appended and bool(calls), 'a recursive rendering is computed but not appended',
+                   line=calls[0].lineno if calls else None)
+            if test != 'else':
+                fw = all(any(k.arg == 'nd' and src(k.value) == nd for k in c.keywords) for c in calls)
+                rep.ob('R20.2', dispa, '%s: nd forwarded' % label, fw, 'the requested number of decimals is not forwarded to the sub-arrays',
+                       line=calls[0].lineno if calls else None)
+            continue
         loops = [s for s in body if isinstance(s, ast.For)]
         label = test
         if len(loops) != 1 or not isinstance(loops[0].target, ast.Name):
